@@ -77,6 +77,25 @@ func Sites(sp *spec.Spec, g *valgen.G, t *spec.Type, val *spec.Val, v any, path 
 				if unsigned && f < 0 {
 					return
 				}
+				// a probe the attribute's Go type cannot hold is a malformed encoding, not a range violation
+				switch kind {
+				case spec.Int32:
+					if f < -2147483648 || f > 2147483647 {
+						return
+					}
+				case spec.UInt32:
+					if f > 4294967295 {
+						return
+					}
+				case spec.Int, spec.Int64:
+					if f <= -9.2e18 || f >= 9.2e18 {
+						return
+					}
+				case spec.UInt, spec.UInt64:
+					if f >= 1.8e19 {
+						return
+					}
+				}
 				add(rule, side, valgen.LeafNum(kind, f))
 			}
 			if m.Min != nil {
